@@ -486,6 +486,9 @@ func genC11BaseMode(r *Rng, farFuture bool) (*Plan, *HistGen) {
 			switch {
 			case e.Validity.Until != "" && e.Validity.From == "":
 				ne.Validity.Until = Pick(r, []string{dateStr(start.AddDate(0, 0, 6)), dateStr(start.AddDate(0, 0, 7)), "2150-03-04", dateStr(start.AddDate(0, 0, 2))})
+			case e.Validity.From == "1990-03-15" && e.Validity.Until != "":
+				// (never both until and duration: gopki rejects such a file)
+				ne.Validity.Until = Pick(r, []string{"1994-03-15", "1993-09-15", dateStr(start.AddDate(0, 0, 3)), "2150-03-04"})
 			case e.Validity.From == "1990-03-15":
 				ne.Validity.Duration = Pick(r, []string{"4y", "3y6m", "2y", "200y"})
 			case e.Validity.Duration == "2d":
@@ -672,7 +675,7 @@ func laneP_C11(t *testing.T, plan *Plan, _ *World, sink *Sink) {
 	}
 	before, _ := readDirSnap(dir)
 	yes := "y\n"
-	res, err := runBinary(dir, v.args, &yes, "UTC")
+	res, err := runBinary(dir, Mix(plan.Seed, 79), v.args, &yes, "UTC")
 	if err != nil {
 		sink.res.Harness = append(sink.res.Harness, "lane P run: "+err.Error())
 		return
